@@ -14,8 +14,8 @@ listed although it needs approve) are repaired; regression theorems
 `failed_approve_keeps_ok_record`, `failed_approve_after_revert_listed`.
 
 * `missing_sound`: the FULL listing half; the only hypothesis is that the current code is not
-  empty in all six files.  That hypothesis is needed: `missing_sound_removed_counterexample`
-  (observed policy deleted, current code all-empty; finding F-C13r stays).
+  empty in all six files.  (That hypothesis was dropped with repair b82d07c of finding F-C13r:
+  `missing_sound` now holds for every history; `missing_sound_removed_regression` pins the former witness.)
 * `missing_omits_partial`: the omission half for histories in which, since the latest conclusive
   observation, no compare ended with errors and the status file was not damaged (ghost flag of
   `runC`; a failed approve no longer disturbs it).  That hypothesis is needed:
@@ -29,9 +29,10 @@ theorem inv_run (es : List (Event × Nat)) (w : World) (h : Inv w) : Inv (es.fol
   | nil => exact h
   | cons e es ih => exact ih _ (inv_step w e h)
 
-/-- Listing half, for EVERY history whose current code is not empty in all six files: a device
-whose latest conclusive observation does not establish the current code is printed. -/
-theorem missing_sound (es : List (Event × Nat)) (hne : (run es).curCode ≠ zeros) :
+/-- Listing half, for EVERY history: a device whose latest conclusive observation does not establish the
+current code is printed.  (No side condition any more: since repair b82d07c a removed policy of the
+device means "printed", the former finding F-C13r.) -/
+theorem missing_sound (es : List (Event × Nat)) :
     (run es).needsApprove = true → (run es).listed = true := by
   have hinv := inv_run es {} inv_init
   unfold run at *
@@ -53,20 +54,21 @@ theorem missing_sound (es : List (Event × Nat)) (hne : (run es).curCode ≠ zer
       by_cases hc : devicePolicy w.st = w.cur
       · simp [World.curCode, hc]
       · simp only [hc, if_false] at hl
-        have hl' : readPolicy w.disk (devicePolicy w.st) = w.curCode := by simpa using hl
-        unfold readPolicy World.disk at hl'
         by_cases hr : devicePolicy w.st ∈ w.removed
-        · simp [hd, hr] at hl'; exact absurd hl'.symm hne
-        · have : ¬ w.cur < devicePolicy w.st := by omega
-          simpa [hd, hr, this] using hl'
+        · simp [World.disk, hd, hr] at hl
+        · have hlt : ¬ w.cur < devicePolicy w.st := by omega
+          have hsome : w.disk (devicePolicy w.st) = some (w.codeOf (devicePolicy w.st)) := by
+            simp [World.disk, hd, hr, hlt]
+          simp only [hsome, Option.isNone_some, Bool.false_eq_true, if_false, readPolicy, Option.getD_some] at hl
+          simpa using hl
     simp [World.needsApprove, hobs, hcode] at hneeds
 
-/-- The hypothesis of `missing_sound` is needed: the observed policy was deleted and the current
-code is empty in all six files (`readFile` of a missing file equals an empty file). -/
-theorem missing_sound_removed_counterexample :
-    ∃ es, (run es).curCode = zeros ∧ (run es).needsApprove = true ∧ (run es).listed = false :=
-  ⟨[(.newPolicy [1,0,0,0,0,0], 0), (.approveOk, 0), (.newPolicy zeros, 0), (.remove 1, 0)],
-   by decide⟩
+/-- Regression witness of former finding F-C13r: the observed policy was deleted and the current code is
+empty in all six files (`readFile` of a missing file equals an empty file); the device is printed now. -/
+theorem missing_sound_removed_regression :
+    let es : List (Event × Nat) :=
+      [(.newPolicy [1,0,0,0,0,0], 0), (.approveOk, 0), (.newPolicy zeros, 0), (.remove 1, 0)]
+    (run es).curCode = zeros ∧ (run es).needsApprove = true ∧ (run es).listed = true := by decide
 
 theorem j_run (es : List (Event × Nat)) (w : World) (cl : Bool)
     (ht : TimesOK w) (hc : CmpOK w.st) (hj : J w cl) :
@@ -159,7 +161,7 @@ example :
       [1,0,0,0,0,0] = (run es).curCode ∧ 1 ∉ (run es).removed ∧ (run es).listed = false := by decide
 
 def obligations : List Lean.Name := [
-  ``missing_sound, ``missing_sound_removed_counterexample,
+  ``missing_sound, ``missing_sound_removed_regression,
   ``missing_omits_partial, ``missing_omits_needs_clean,
   ``failed_approve_keeps_ok_record, ``failed_approve_after_revert_listed,
   ``inv_step, ``j_step, ``approve_ok_unlists]
